@@ -172,7 +172,8 @@ class OperationGroup(ContextMixin, ContentMixin):
                     storage_limit if storage_limit is not None else default_storage_limit(x, constants),
                 )
             ),
-            'fee': lambda i, x: str(default_fee(x, gas_limit, minimal_nanotez_per_gas_unit) if i == 0 else 0),
+            # every content pays for its own size and gas limit (`gas_limit` is already filled at this point)
+            'fee': lambda i, x: str(default_fee(x, int(x['gas_limit']), minimal_nanotez_per_gas_unit)),
         }
 
         def fill_content(idx, content):
